@@ -57,6 +57,48 @@ def real_validators(strings):
     return res
 
 
+def validators_while_committing(a):
+    """(child) the validators' verdicts do not depend on what other threads of the process are doing: while one thread commits writing
+    sessions (shard lists and description rewritten over and over), another validates hostile path strings through the real
+    validators.  Returns the strings that were accepted although they lead outside the root."""
+    import threading, time
+    sp.sedpack()
+    from pydantic import ValidationError
+    from sedpack.io.file_info import FileInfo
+    from sedpack.io.shard_file_metadata import ShardsList, ShardListInfo
+    from sedpack.io import Dataset
+    root = Path(a["root"]); shutil.rmtree(root, ignore_errors=True)
+    ds = sp.mk(root, fmt="npz", eps=1, hashes=("sha256",))
+    stop = threading.Event()
+    commits = {"n": 0}
+    def writer():
+        v = 0
+        while not stop.is_set():
+            with ds.filler() as f:
+                for _ in range(3):
+                    f.write_example(values=sp.val(v), split="train"); v += 1
+            commits["n"] += 1
+    hostile = ["../x/shards_list.json", "/etc/shards_list.json", "train/../../shards_list.json", "../../outside/x.fb", "/abs/x.fb", "a/../../x.fb", "..", "../x"]
+    accepted, rounds = [], 0
+    t = threading.Thread(target=writer); t.start()
+    t0 = time.time()
+    try:
+        while time.time() - t0 < a["secs"]:
+            rounds += 1
+            for s_ in hostile:
+                for name, fn in (("FileInfo", lambda: FileInfo(file_path=s_)), ("ShardsList", lambda: ShardsList(relative_path_self=s_)),
+                                 ("ShardListInfo", lambda: ShardListInfo(shard_list_info_file=FileInfo(file_path=s_)))):
+                    try:
+                        fn(); accepted.append([name, s_, rounds])
+                    except (ValidationError, ValueError):
+                        pass
+            if accepted: break
+    finally:
+        stop.set(); t.join(60)
+    shutil.rmtree(root, ignore_errors=True)
+    return {"rounds": rounds, "commits": commits["n"], "accepted": accepted[:5]}
+
+
 def hostile_cases(args):
     """(child) crafted datasets naming locations outside the root; record what gets read / created."""
     sp.sedpack(rust=True)
@@ -250,6 +292,12 @@ def run(ctx):
             ctx.report({"kind": "reads-outside", "field": "root", "relative": r["rel"]},
                        f"a dataset opened as {r['rel']!r} (relative) and used after the working directory changed read {r.get('ids')} (iterators started before the change: {r.get('lazy')}) ({r.get('error', '')}); files opened outside its root: {r.get('outside')}",
                        {"case": r})
+    vw = child.call("harness.checks.c17", "validators_while_committing", {"root": str(ctx.scratch / "c17_busy"), "secs": ctx.pick(4, 15)}, timeout=600)
+    if vw["accepted"]:
+        ctx.report({"kind": "validator-accepts-outside", "validator": vw["accepted"][0][0], "while_committing": True},
+                   f"validator {vw['accepted'][0][0]} accepted {vw['accepted'][0][1]!r} while another thread of the process was committing a writing session (round {vw['accepted'][0][2]}, {vw['commits']} commits so far)",
+                   {"accepted": vw["accepted"], "rounds": vw["rounds"], "commits": vw["commits"]})
+    ctx.cov["validator_rounds_while_committing"] = vw["rounds"]; ctx.cov["commits_meanwhile"] = vw["commits"]
     hres = child.call("harness.checks.c17", "hostile_cases", args, timeout=1800)
     nh = 0
     for res in hres:
